@@ -3,6 +3,7 @@
 package tracer
 
 import (
+	"fmt"
 	"sync"
 	"time"
 )
@@ -10,7 +11,29 @@ import (
 type vfCollector struct {
 	mu       sync.Mutex
 	traces   []Trace
+	prints   []string // what each trace looked like when it was handed over
 	inflight sync.WaitGroup
+}
+
+// vfTracePrint: the parts of a trace that live behind pointers and maps (and could be written to later).
+func vfTracePrint(t Trace) string {
+	s := fmt.Sprintf("events=%d err=%v", len(t.Events), t.Err)
+	if t.Response != nil {
+		s += fmt.Sprintf(" status=%d headers=%v trailers=%v", t.Response.StatusCode, t.Response.Header, t.Response.Trailer)
+	}
+	return s
+}
+
+// changedSinceComplete names the first trace that no longer looks as it did when the collector got it.
+func (c *vfCollector) changedSinceComplete() string {
+	c.mu.Lock()
+	defer c.mu.Unlock()
+	for i, t := range c.traces {
+		if now := vfTracePrint(t); now != c.prints[i] {
+			return fmt.Sprintf("trace %d (%s) was handed over as {%s} and is now {%s}", i, t.TestName, c.prints[i], now)
+		}
+	}
+	return ""
 }
 
 // vfSlowCollect, when set, says how long the collector takes to accept a trace (a collector that is busy, e.g.
@@ -26,4 +49,5 @@ func (c *vfCollector) Complete(t Trace) {
 	c.mu.Lock()
 	defer c.mu.Unlock()
 	c.traces = append(c.traces, t)
+	c.prints = append(c.prints, vfTracePrint(t))
 }
